@@ -288,7 +288,11 @@ func (pp *Points) TakeFrom(src []byte) ([]byte, error) {
 		return nil, &WantLargerBufferError{WantedBufSize: uint64Size}
 	}
 
-	count := int(binary.BigEndian.Uint64(src))
+	count64 := binary.BigEndian.Uint64(src)
+	if count64 > (math.MaxInt32-uint64Size)/pointSize {
+		return nil, errors.New("too many points")
+	}
+	count := int(count64)
 	src = src[uint64Size:]
 
 	wantedSize := count * pointSize
